@@ -221,6 +221,7 @@ func TestProp(t *testing.T) {
 		})
 		rep.Extra("wall_representation_stream_s", time.Since(startRep).Seconds())
 	}
+	runClosers(rep, env, c, positions)
 	if p := as.ErrLog.Panics(); p > 0 {
 		rep.Count("auth_handler_panics", p)
 	}
@@ -228,7 +229,7 @@ func TestProp(t *testing.T) {
 		rep.Count("proxy_handler_panics", p)
 	}
 
-	if only < 0 && onlyRep < 0 && !skipMain && !skipRep {
+	if _, skipCtx := env.Only("c20ctx"); only < 0 && onlyRep < 0 && !skipMain && !skipRep && !skipCtx && env.Replay == "" {
 		for _, hs := range hdrSets {
 			rep.Floor("hdrset."+hs.name, len(positions)/2)
 		}
